@@ -1,4 +1,5 @@
 import TephraProps.C03
+import TephraProps.C03Lexer
 import TephraProps.C04
 import TephraProps.C05
 import TephraProps.C17
